@@ -194,3 +194,62 @@ Proof.
 Qed.
 
 End Dedup.
+
+(* ---------- C12: what is reported does not depend on the order of the candidates ---------- *)
+Section DedupOrder.
+Variable suppressed : string -> Z -> bool.
+Notation sup := (sup suppressed).
+
+(* a key is reported (some diagnostic with that key comes out) iff SOME candidate with that key is unsuppressed *)
+Theorem dedup_key_reported_iff cs k :
+  (exists pre d post, cs = (pre ++ (d, Some k) :: post)%list /\ In d (dedup_rec suppressed [] cs) /\
+                      suppressed (d_code d) (d_pos d) = false /\
+                      forall c, In c pre -> snd c = Some k -> sup c = true)
+  <-> exists c, In c cs /\ snd c = Some k /\ sup c = false.
+Proof.
+  split.
+  - intros (pre & d & post & -> & _ & Hs & _). exists (d, Some k). split; [apply in_or_app; right; left; reflexivity|]. split; [reflexivity|exact Hs].
+  - intros [c [Hc [Hk Hs]]].
+    (* take the first unsuppressed candidate with key k *)
+    assert (Hfirst : exists pre d post, cs = (pre ++ (d, Some k) :: post)%list /\ suppressed (d_code d) (d_pos d) = false /\
+                                        forall c', In c' pre -> snd c' = Some k -> sup c' = true).
+    { clear -Hc Hk Hs. induction cs as [|[dx kx] r IH]; [contradiction|].
+      destruct kx as [kx'|].
+      - destruct (key_eqb k kx') eqn:Ek.
+        + apply key_eqb_eq in Ek. subst kx'.
+          destruct (suppressed (d_code dx) (d_pos dx)) eqn:Esx.
+          * destruct Hc as [Hc|Hc].
+            { subst c. unfold WalkProofs.sup in Hs. simpl in Hs. congruence. }
+            destruct (IH Hc) as (pre & d & post & Heq & H1 & H2).
+            exists ((dx, Some k) :: pre), d, post. split; [simpl; rewrite Heq; reflexivity|]. split; [exact H1|].
+            intros c' [Hc'|Hc'] Hk'; [subst c'; unfold WalkProofs.sup; simpl; exact Esx|apply H2; assumption].
+          * exists [], dx, r. split; [reflexivity|]. split; [exact Esx|intros c' []].
+        + assert (Hne : kx' <> k) by (intros E; subst kx'; assert (key_eqb k k = true) by (apply key_eqb_eq; reflexivity); congruence).
+          destruct Hc as [Hc|Hc].
+          { subst c. simpl in Hk. inversion Hk. contradiction. }
+          destruct (IH Hc) as (pre & d & post & Heq & H1 & H2).
+          exists ((dx, Some kx') :: pre), d, post. split; [simpl; rewrite Heq; reflexivity|]. split; [exact H1|].
+          intros c' [Hc'|Hc'] Hk'; [subst c'; simpl in Hk'; inversion Hk'; contradiction|apply H2; assumption].
+      - destruct Hc as [Hc|Hc].
+        { subst c. simpl in Hk. discriminate. }
+        destruct (IH Hc) as (pre & d & post & Heq & H1 & H2).
+        exists ((dx, None) :: pre), d, post. split; [simpl; rewrite Heq; reflexivity|]. split; [exact H1|].
+        intros c' [Hc'|Hc'] Hk'; [subst c'; simpl in Hk'; discriminate|apply H2; assumption]. }
+    destruct Hfirst as (pre & d & post & Heq & H1 & H2).
+    exists pre, d, post. split; [exact Heq|]. split; [|split; [exact H1|exact H2]].
+    apply dedup_rec_spec. exists pre, (Some k), post. split; [exact Heq|]. split; [exact H1|]. split; [intros []|exact H2].
+Qed.
+
+(* an unkeyed candidate is reported iff it is unsuppressed *)
+Theorem dedup_unkeyed_reported_iff cs d :
+  (exists pre post, cs = (pre ++ (d, None) :: post)%list /\ In d (dedup_rec suppressed [] cs) /\ suppressed (d_code d) (d_pos d) = false)
+  <-> In (d, None) cs /\ suppressed (d_code d) (d_pos d) = false.
+Proof.
+  split.
+  - intros (pre & post & -> & _ & Hs). split; [apply in_or_app; right; left; reflexivity|exact Hs].
+  - intros [Hin Hs]. apply in_split in Hin. destruct Hin as (pre & post & ->).
+    exists pre, post. split; [reflexivity|]. split; [|exact Hs].
+    apply dedup_rec_spec. exists pre, None, post. split; [reflexivity|]. split; [exact Hs|exact I].
+Qed.
+
+End DedupOrder.
